@@ -72,3 +72,11 @@ Theorem C20_encode_nth_eq_first : forall ffmt c sc fuel id v n,
   = fst (encode ffmt c sc fuel id v None).
 Proof. exact encode_nth_eq_first. Qed.
 Print Assumptions C20_encode_nth_eq_first.
+
+(* ---- C01/C02 for the renderer (not part of C20's statement): the walk returns for every stored
+   value.  Proved for structs without struct / list / group fields; the general fuel bound is
+   not proved (see TextProofs.v), its failure before the fix is render_total_refuted. *)
+Theorem C20_render_total_flat_partial : forall ffmt c sc fuel exp id d ps,
+  flat_schema sc -> no_oof (shown_struct ffmt c sc (S fuel) exp id d ps).
+Proof. exact render_total_flat_partial. Qed.
+Print Assumptions C20_render_total_flat_partial.
